@@ -1,2 +1,3 @@
 import Proofs.C14
 import Proofs.C09
+import Proofs.C07
